@@ -382,6 +382,45 @@ def register(reg):
         )
     )
 
+    # ---------------------------------------------------------------- str
+    @reg.spec
+    def utf8(sv):
+        return sv.utf8
+
+    reg.add(
+        C.Contract(
+            f"{M}:writeStr",
+            params=dict(value=C.Str(), stream=C.Stream(at_end=True)),
+            setup=setup_axioms,
+            requires=["len(utf8(value)) <= 2147483647"],
+            ensures={
+                "length_prefix": "written(stream.data, old(stream.pos), len(utf8(value)))",
+                "payload": "bytes_at_stream(stream.data, old(stream.pos) + enc_len(len(utf8(value))), utf8(value))",
+                "advance": "stream.pos == old(stream.pos) + enc_len(len(utf8(value))) + len(utf8(value))",
+            },
+            modifies=["stream"],
+            properties=("C18",),
+        )
+    )
+    reg.add(
+        C.Contract(
+            f"{M}:readStr",
+            params=dict(stream=C.Stream(), _s=C.Str()),
+            setup=setup_axioms,
+            ghost_inst={"readBytes": {"_b": "utf8(_s)"}},
+            ensures={
+                "decodes": "implies(written(old(stream.data), old(stream.pos), len(utf8(_s)))"
+                " and bytes_at_stream(old(stream.data), old(stream.pos) + enc_len(len(utf8(_s))), utf8(_s))"
+                " and old(stream.pos) + enc_len(len(utf8(_s))) + len(utf8(_s)) <= old(stream.length),"
+                " utf8(result) == utf8(_s) and stream.pos == old(stream.pos) + enc_len(len(utf8(_s))) + len(utf8(_s)))",
+                "refuses_truncation": "not (written(old(stream.data), old(stream.pos), len(utf8(_s)))"
+                " and old(stream.pos) + enc_len(len(utf8(_s))) + len(utf8(_s)) > old(stream.length))",
+            },
+            raises=[C.Raises("SerializationError", mode="may"), C.Raises("IndexError", mode="may"), C.Raises("UnicodeDecodeError", mode="may")],
+            properties=("C18",),
+        )
+    )
+
 
 # -------------------------------------------------------------------------------------------------
 # replay drivers: model -> real objects -> real call -> executable form of the clause
